@@ -615,14 +615,14 @@ def ob_test_argv_setup():
     return h
 
 
-def ob_project_commands(dim):
+def ob_project_commands(dim, full=False):
     """custom_target() and generator() commands of a WHOLE configuration (real Interpreter, real NinjaBackend.generate on a generated project without a compiled
     language - harness/proj.py): the argv Ninja would execute for every custom target and for the generator, decoded from build.ninja with the reference Ninja
     evaluator and sh splitter, is the command of the definition with @INPUT@ / @OUTPUT@ / @OUTPUT0@ / @OUTPUTn@ (several in ONE argument too) replaced by exactly
     the inputs and outputs of that statement - nothing else changed"""
     def h():
         from harness import proj as PJ
-        pr, c, g = PJ.run_project(dim)
+        pr, c, g = PJ.run_project(dim, full)
         def argv_of(out):
             st = g.stmts[g.producer[out]]
             r = c.rules[st['rule']]
@@ -685,6 +685,6 @@ def obligations(tier):
     out.append(Obligation('test-argv', ob_test_argv(), dict(real='mtest.SingleTestRunner.__init__/run/_run_cmd/_run_subprocess, TestHarness.get_wrapper; asyncio.create_subprocess_exec recorded', args='1-2 of 1-2 chars over {a, space, $, quote, backslash}', test_args='0-1', wrapper='none | --wrapper with a symbolic argument | --gdb', protocol='exitcode | tap'), labels=('started',), max_paths=3000000))
     out.append(Obligation('test-argv-setup', ob_test_argv_setup(), dict(real='TestHarness.get_test_runner / merge_setup_options / SingleTestRunner.__init__ / run up to create_subprocess_exec', tests='2 in a row', setup='exe_wrapper with a symbolic argument | none; timeout_multiplier 0..3',
                           command_line='-t absent | 0..3'), labels=('started',), max_paths=1000000))
-    out.append(Obligation('project-commands', ob_project_commands('inputs'), dict(real='Interpreter.run + NinjaBackend.generate on a generated project without a compiled language', commands='3 custom targets (@INPUT@, @OUTPUT@, @OUTPUT0@, a target output as an argument) and a generator (@INPUT@, two @OUTPUTn@ in one argument)',
+    out.append(Obligation('project-commands', ob_project_commands('inputs', not q), dict(real='Interpreter.run + NinjaBackend.generate on a generated project without a compiled language', commands='3 custom targets (@INPUT@, @OUTPUT@, @OUTPUT0@, a target output as an argument) and a generator (@INPUT@, two @OUTPUTn@ in one argument)',
                           symbolic='build_by_default x2, build_always_stale, install, the index into a multi-output target'), labels=('done', 'generator'), max_paths=2000000, path_timeout=300, classify=__import__('harness.proj', fromlist=['classify']).classify))
     return out
